@@ -364,16 +364,21 @@ void mc_jobs(Tier t, std::vector<std::string> &jobs)
 {
 	// long-value jobs first (longest running), then the tree families from large to small
 	if (t == Quick) {
-		for (int i = 0; i < NFMT; ++i) jobs.push_back(fmt("len:%s:quick:0/1", fmts[i].id));
+		for (int i = 0; i < NFMT; ++i) jobs.push_back(fmt("len:%s:quick+ws:0/1", fmts[i].id));
 		add_tree_jobs(jobs, 2, 2, 1, 7, "all", 1);
 		add_tree_jobs(jobs, 3, 2, 0, 7, "few", 1);
+		add_tree_jobs(jobs, 2, 2, 0, 7, "all+ws", 1);
 	} else {
-		for (int i = 0; i < NFMT; ++i) for (unsigned k = 0; k < 4; ++k) jobs.push_back(fmt("len:%s:thorough:%u/4", fmts[i].id, k));
+		for (int i = 0; i < NFMT; ++i) for (unsigned k = 0; k < 4; ++k) jobs.push_back(fmt("len:%s:thorough+ws:%u/4", fmts[i].id, k));
 		add_tree_jobs(jobs, 2, 2, 2, 7, "fewalt", 4);
 		add_tree_jobs(jobs, 3, 2, 0, 7, "all", 2);
 		add_tree_jobs(jobs, 2, 3, 0, 7, "all", 2);
+		add_tree_jobs(jobs, 2, 2, 1, 7, "few+ws", 2);
 		add_tree_jobs(jobs, 2, 2, 1, 7, "all", 1);
+		add_tree_jobs(jobs, 3, 2, 0, 7, "min+ws", 1);
+		add_tree_jobs(jobs, 2, 3, 0, 7, "min+ws", 1);
 		add_tree_jobs(jobs, 2, 3, 1, 7, "two", 1);
+		add_tree_jobs(jobs, 2, 2, 0, 7, "all+ws", 1);
 	}
 }
 static std::vector<unsigned> masks_for(const Fmt &f, const std::string &set)
@@ -413,11 +418,12 @@ static uint64_t g_cnt[C_NCNT];
 // per-tree cache: everything that does not depend on the decoration mask
 static struct TreeCache { bool valid; std::string key, want, sigbase, plain_canon; int plain_ret; Feat ft; int lencl; } g_tc;
 
-static std::string describe(const Fmt &f, unsigned mask, const std::string &doc)
+static std::string describe(const Fmt &f, unsigned mask, int flav, const std::string &doc)
 {
-	return fmt("format %s \"%s\" mask %#x, document: %s", f.id, f.fmt ? f.fmt : "(default)", mask, show(doc).c_str());
+	return fmt("format %s \"%s\" mask %#x ws %s, document: %s", f.id, f.fmt ? f.fmt : "(default)", mask, flavs[flav].name, show(doc).c_str());
 }
-static void check_case(Run &r, const Fmt &f, const std::vector<TN> &tree, unsigned mask, const std::string &treekey)
+static uint64_t g_flavcnt[16];
+static void check_case(Run &r, const Fmt &f, const std::vector<TN> &tree, unsigned mask, int flav, const std::string &treekey)
 {
 	TreeCache &tc = g_tc;
 	if (!tc.valid || tc.key != treekey) {
@@ -432,10 +438,11 @@ static void check_case(Run &r, const Fmt &f, const std::vector<TN> &tree, unsign
 		if (r.replaying) r.note("undecorated document: %s  -> ret %d: %s", show(plain).c_str(), pp.ret, pp.canon.c_str());
 	}
 	const Feat &ft = tc.ft;
-	std::string doc = render(f, tree, mask);
+	std::string doc = render(f, tree, mask, flav);
 	if (r.replaying) {
 		r.note("format %s (\"%s\", flags %s)  mask %#x", f.id, f.fmt ? f.fmt : "(default)", f.flags ? f.flags : "(all)", mask);
 		for (int b = 0; b < NBITN; ++b) if (mask & (1u << b)) r.note("  decoration: %s", bitname[b]);
+		if (mask & WSBITS) r.note("  white space flavour: %s", flavs[flav].name);
 		r.note("document (%zu bytes): %s", doc.size(), show(doc).c_str());
 		r.note("generating tree: %s", tc.want.c_str());
 	}
@@ -445,17 +452,18 @@ static void check_case(Run &r, const Fmt &f, const std::vector<TN> &tree, unsign
 	bool bad = false;
 	bool plain_ok = tc.plain_ret >= 0 && tc.plain_canon == tc.want;
 	bool this_ok = p.ret >= 0 && p.canon == tc.want && p.linkerr.empty();
-	if (p.asan) { r.violation(tc.sigbase + "memory", describe(f, mask, doc) + ": AddressSanitizer report while parsing / releasing the tree"); bad = true; }
+	if (p.asan) { r.violation(tc.sigbase + "memory", describe(f, mask, flav, doc) + ": AddressSanitizer report while parsing / releasing the tree"); bad = true; }
 	else if (this_ok) { /* decorated and undecorated text both have to give the generating tree; a wrong undecorated parse is reported by the mask-0 case */ }
 	else if (mask && plain_ok) {
-		r.violation(tc.sigbase + "decoration-changes-result", describe(f, mask, doc) + (p.ret < 0 ? fmt(": decorated parse returned %d at line %zu", p.ret, p.line) : ": decorated parse [" + p.canon + "]" + (p.linkerr.empty() ? "" : " (" + p.linkerr + ")"))
+		r.violation(tc.sigbase + "decoration-changes-result", describe(f, mask, flav, doc) + (p.ret < 0 ? fmt(": decorated parse returned %d at line %zu", p.ret, p.line) : ": decorated parse [" + p.canon + "]" + (p.linkerr.empty() ? "" : " (" + p.linkerr + ")"))
 		            + ", undecorated parse is the expected [" + tc.want + "]"); bad = true;
 	}
-	else if (p.ret < 0) { r.violation(tc.sigbase + "refused", describe(f, mask, doc) + fmt(": mpt_parse_node returned %d at line %zu", p.ret, p.line)); bad = true; }
-	else if (p.canon != tc.want) { r.violation(tc.sigbase + "wrong-tree", describe(f, mask, doc) + ": parsed [" + p.canon + "] expected [" + tc.want + "]"); bad = true; }
-	else { r.violation(tc.sigbase + "wrong-tree", describe(f, mask, doc) + ": " + p.linkerr); bad = true; }
+	else if (p.ret < 0) { r.violation(tc.sigbase + "refused", describe(f, mask, flav, doc) + fmt(": mpt_parse_node returned %d at line %zu", p.ret, p.line)); bad = true; }
+	else if (p.canon != tc.want) { r.violation(tc.sigbase + "wrong-tree", describe(f, mask, flav, doc) + ": parsed [" + p.canon + "] expected [" + tc.want + "]"); bad = true; }
+	else { r.violation(tc.sigbase + "wrong-tree", describe(f, mask, flav, doc) + ": " + p.linkerr); bad = true; }
 	// coverage counters: what was enumerated (independent of the verdict), plus the number of cases that held
 	++g_cnt[C_CASES];
+	if (mask & WSBITS) ++g_flavcnt[flav];
 	if (mask) { for (int b = 0; b < NBITN; ++b) if (mask & (1u << b)) ++g_cnt[C_BIT0 + b]; }
 	else ++g_cnt[C_UNDECO];
 	g_cnt[C_NESTED] += ft.nested; g_cnt[C_DEPTH3] += ft.depth3; g_cnt[C_QUOTED] += ft.quoted; g_cnt[C_ESCQ] += ft.escq;
@@ -467,10 +475,13 @@ static void check_case(Run &r, const Fmt &f, const std::vector<TN> &tree, unsign
 	if (p.consumed != doc.size()) ++g_cnt[C_NOTCONSUMED];
 }
 
-struct JobCtx { Job j; std::vector<const char *> sn, on; std::vector<int> vals; std::vector<unsigned> masks, masks_big; std::vector<size_t> lens; };
+struct JobCtx { int nflav; Job j; std::vector<const char *> sn, on; std::vector<int> vals; std::vector<unsigned> masks, masks_big; std::vector<size_t> lens; };
 static void setup(JobCtx &jc, const std::string &job)
 {
 	jc.j = parse_job(job);
+	// "<maskset>+ws": every white space flavour for every mask that inserts white space
+	jc.nflav = 1;
+	{ size_t p = jc.j.maskset.find("+ws"); if (p != std::string::npos) { jc.nflav = NFLAV; jc.j.maskset.erase(p); } }
 	const Fmt &f = fmts[jc.j.fmt];
 	for (const char *n : NAMES) { if (name_ok(f, true, n)) jc.sn.push_back(n); if (name_ok(f, false, n)) jc.on.push_back(n); }
 	for (int v = 0; v < jc.j.NV; ++v) jc.vals.push_back(v);
@@ -486,13 +497,15 @@ static void body(Run &r, const JobCtx &jc, Ctx &x)
 	const Fmt &f = fmts[j.fmt];
 	std::vector<TN> tree;
 	const std::vector<unsigned> *masks = &jc.masks;
+	int nflav = jc.nflav; bool lenfam = false;
 	if (j.family == "tree") {
 		Gen g = { x, f, j.D, j.F, j.B, jc.sn, jc.on, jc.vals };
 		if (flat(f)) gen_sep(g, tree); else gen_list(g, tree, 1);
 	} else {
 		// one long value in a small fixed tree: length x template x writing
 		size_t len = jc.lens[x.choose(jc.lens.size())];
-		if (len > 5000) masks = &jc.masks_big;   // 64 KiB documents: fewer decoration subsets
+		lenfam = true;
+		if (len > 5000) { masks = &jc.masks_big; nflav = 1; }   // 64 KiB documents: fewer decoration subsets, default white space
 		size_t tpl = x.choose(3), wr = x.choose(3);
 		TN lv; lv.sect = false; lv.name = "b"; lv.val = longval(len); lv.quote = wr;
 		if (wr == 2) { lv.val[0] = f.esc[0]; lv.val[len / 2] = f.esc[0]; lv.quote = 1; }   // escaped quotes at the start and in the middle
@@ -517,7 +530,10 @@ static void body(Run &r, const JobCtx &jc, Ctx &x)
 		++g_cnt[C_TREES];
 		if (r.samples.size() < 2 && tree.size() >= 2 && !tree[1].kids.empty()) r.sample(fmt("%s: ", f.id) + show(render(f, tree, masks->back())).substr(0, 300));
 	}
-	check_case(r, f, tree, (*masks)[mi], key);
+	unsigned mask = (*masks)[mi];
+	if (lenfam && __builtin_popcount(mask & ~ALT) > 2) nflav = 1;   // long values: flavours with at most two decorations
+	int flav = (nflav > 1 && (mask & WSBITS)) ? (int) x.choose(nflav) : 0;
+	check_case(r, f, tree, mask, flav, key);
 }
 
 void mc_explore(Run &r, const std::string &job)
@@ -526,11 +542,14 @@ void mc_explore(Run &r, const std::string &job)
 	memset(g_cnt, 0, sizeof g_cnt);
 	for (int i = 0; i < C_BIT0; ++i) if (i != C_NOTCONSUMED && i != C_OK) r.require(cntname[i]);
 	for (int b = 0; b < NBITN; ++b) r.require(std::string("deco:") + bitname[b]);
+	for (int i = 0; i < NFLAV; ++i) r.require(std::string("ws:") + flavs[i].name);
+	memset(g_flavcnt, 0, sizeof g_flavcnt);
 	for (int i = 0; i < NFMT; ++i) r.require(std::string("cases:") + fmts[i].id);
 	dfs(r, [&](Ctx &x) { body(r, jc, x); });
 	const Fmt &f = fmts[jc.j.fmt];
 	for (int i = 0; i < C_BIT0; ++i) if (g_cnt[i]) { r.count(cntname[i], g_cnt[i]); if (i == C_CASES) r.count(std::string("cases:") + f.id, g_cnt[i]); }
 	for (int b = 0; b < NBITN; ++b) if (g_cnt[C_BIT0 + b]) r.count(std::string("deco:") + bitname[b], g_cnt[C_BIT0 + b]);
+	for (int i = 0; i < NFLAV; ++i) if (g_flavcnt[i]) r.count(std::string("ws:") + flavs[i].name, g_flavcnt[i]);
 }
 void mc_replay(Run &r, const std::string &job, const Vec &v)
 {
